@@ -69,6 +69,48 @@ def seams(src_path, ref_path, kernel, mbm):
     return sorted(ys), sorted(xs), ratio, len(bps)
 
 
+def thin_last_block(run, tmp):
+    """
+    Partitions whose last block is thinner than the kernel: processing windows of 57 and 65 rows cut into eight row blocks
+    (7 x 8 + 1, 7 x 9 + 2) with kernels 7, 9 and 15 rows high - the input window of the last block holds fewer rows than
+    the kernel.  Parameter image and corrected image (nearest up-sampling) must equal the single-block run bit for bit.
+    """
+    from homonim.errors import BlockSizeError
+    u = 8
+    for k, (n, kh, model) in enumerate(((57, 7, 'gain'), (57, 9, 'gain'), (65, 15, 'gain'), (65, 15, 'gain-offset'), (57, 9, 'gain-offset'))):
+        ref = rasters.Grid(u * 5000 + 16 * u * k, u * 9000, 2 * u, 2 * u, 10, n + 4)
+        src = rasters.Grid(ref.x0 + 4 * u, ref.ytop - 4 * u, u, u, 12, 2 * n)
+        rng = run.rng(f'thin{k}')
+        s = np.array([[[rng.randint(1, 12) for _ in range(src.w)] for _ in range(src.h)]], float)
+        r = np.array([[[rng.randint(1, 12) for _ in range(ref.w)] for _ in range(ref.h)]], float)
+        pair = fusion.write_pair(tmp, f'c05thin{k}', src, ref, s, r, None, None)
+        kern = (kh, 1) if model == 'gain' else (kh, 3)
+        case = dict(i=850_000 + k, op='last block thinner than the kernel', proc_rows=n, kernel=kern, model=model, halvings=3)
+        kw = dict(model=model, kernel_shape=kern, proc_crs='auto', param=True, threads=1, model_config=dict(upsampling='nearest', r2_inpaint_thresh=None))
+        ph, pw_ = fusion.proc_window_shape(src, ref, True)
+        try:
+            base = fusion.run_fuse(pair.src_path, pair.ref_path, tmp / 'c05thin_1.tif', max_block_mem=100, **kw)
+            res = fusion.run_fuse(pair.src_path, pair.ref_path, tmp / 'c05thin_n.tif',
+                                  max_block_mem=fusion.block_mem_for(3, ph, pw_, src.px, ref.px, True), **kw)
+        except BlockSizeError:
+            run.hist['thin last block: refused (block smaller than the overlap)'] += 1
+            continue
+        except Exception as ex:
+            run.fail(case, f'fusion raised {type(ex).__name__}: {ex}', signature=dict(kind='raises'))
+            continue
+        run.evaluations += 1
+        run.hist['thin last block cases'] += 1
+        run.nontrivial.add(('thin', k))
+        for nm, a, b in (('parameter image', res.param, base.param), ('corrected image', res.corr, base.corr)):
+            if not fusion.bytes_equal(a, b):
+                fa = np.isfinite(a) & np.isfinite(b)
+                d = np.argwhere((np.isfinite(a) != np.isfinite(b)) | (fa & (a != b)))
+                run.fail(case, f'{nm} depends on the block partition (8 row blocks, the last one thinner than the {kh}-row kernel): {len(d)} values '
+                         f'differ, e.g. band/row/col {d[0].tolist()}', signature=dict(kind='param-partition' if nm.startswith('param') else 'corr-partition',
+                                                                                    downsampling='average', proc='ref'))
+                break
+
+
 def run(run: common.Run):
     from homonim.errors import BlockSizeError
     n = 24 if run.quick() else 400
@@ -203,6 +245,7 @@ def run(run: common.Run):
                 run.fail(cases[-1], f'overlap_for_kernel({kh},{kw_}) = {ov} is smaller than the kernel radius + 1',
                          signature=dict(kind='overlap-too-small'))
     run.compare_lines(cases, lines, impls)
+    thin_last_block(run, tmp)
     # whole-image exact model against multi-block runs: the partitioned run must equal the single-function model
     import fuseimg
     fuseimg.whole_image_leg(run, 6 if run.quick() else 60, blocks=(2, 3), base=800_000)
